@@ -1,8 +1,11 @@
+import SignaloModel.Proofs.BridgeSimple
 import SignaloModel.Proofs.SmoothProofs
 /-!
 # C13 — Exponential smoothers obey their recurrences and stay in the data hull
 
-Property theorems for C13 (statements are printed by `#check`, axioms by `#print axioms`;
+Property theorems for C13 (statements are printed by `#check`, axioms by `#check @Registry.emaRec_snoc
+#check @Registry.ema_state
+#print axioms`;
 `bin/check C13` re-elaborates this file on every run and audits the axiom lists).
 -/
 open SignaloModel
@@ -16,3 +19,5 @@ open SignaloModel
 #print axioms Smooth.emed_hull
 #print axioms Smooth.ema_const
 #print axioms Smooth.emaStep_in
+#print axioms Registry.emaRec_snoc
+#print axioms Registry.ema_state
